@@ -4,6 +4,7 @@ import (
 	"fmt"
 	"os"
 	"runtime"
+	"strings"
 	"sync"
 	"sync/atomic"
 	"testing"
@@ -12,15 +13,41 @@ import (
 	"github.com/sanonone/kektordb/internal/zzverif/vexec"
 	"github.com/sanonone/kektordb/internal/zzverif/vkit"
 	"github.com/sanonone/kektordb/pkg/core/distance"
+	"github.com/sanonone/kektordb/pkg/core/hnsw"
+	"github.com/sanonone/kektordb/pkg/engine"
 	"github.com/sanonone/kektordb/pkg/verifhook"
 )
 
 var c12Nodes = []string{"v", "a", "b", "c", "d", "t::e"} // "t::e": ids may contain the separator of graph ids (the product creates session::<n>, _profile::<user> itself)
 var c12Rels = []string{"r", "s", "ri"}
+var c12Paths = []string{"r", "s", "ri", "r.s", "s.r", "ri.r", "r.r"}
+
+// c12Ghost is a graph-only neighbour of the victim: it is linked but never added as a vector.
+// It only ever points AT the victim or is pointed at BY the victim (an edge other -> ghost
+// would be "repaired" away by VGetConnections' self-repair, which this check calls).
+const c12Ghost = "ghost"
+
+// c12WalkHas reports whether a traversal result tree names `victim` anywhere.
+func c12WalkHas(conns map[string][]engine.GraphNode, victim string) bool {
+	for _, l := range conns {
+		for _, n := range l {
+			if n.ID == victim || c12WalkHas(n.Connections, victim) {
+				return true
+			}
+		}
+	}
+	return false
+}
 
 // c12Absent checks every current graph query for traces of the deleted node `victim`
-// (dead == true) and that paths / subgraphs / hydration never route through it. Equality of
-// all remaining edges with the model is checked separately by CheckFull.
+// and that paths / subgraphs / hydration never route through it. Equality of all remaining
+// edges with the model is checked separately by CheckFull.
+//
+// It must only be called when the cascade has settled (or recovery completed it): it calls
+// VGetConnections, whose self-repair un-links dangling edges in the background. For the same
+// reason it returns early while the history holds an explicit re-link of the dead id (the
+// property allows that edge; hydrating its source would start a self-repair that removes the
+// re-link asynchronously and make the model comparison nondeterministic).
 func c12Absent(cs *vkit.Case, x *vexec.Exec, ix, victim, where string) {
 	relinked := false // the victim may appear again only through edges the history added after the delete
 	gv := vexec.GraphID(ix, victim)
@@ -34,14 +61,21 @@ func c12Absent(cs *vkit.Case, x *vexec.Exec, ix, victim, where string) {
 	if relinked {
 		return
 	}
-	for _, n := range c12Nodes {
+	readded := x.M.Idx[ix] != nil && x.M.Idx[ix].Recs[victim] != nil
+	nodes := append(append([]string{}, c12Nodes...), c12Ghost)
+	for _, n := range nodes {
 		for _, rel := range c12Rels {
+			// clause "no current graph query returns the deleted node as a neighbour, source or target"
 			if l, _ := x.E.VGetLinks(ix, n, rel); contains(l, victim) || (n == victim && len(l) > 0) {
 				cs.Fail("%s: VGetLinks(%s,%s)=%v still involves deleted node %s", where, n, rel, l, victim)
 			}
 			if l, _ := x.E.VGetIncoming(ix, n, rel); contains(l, victim) || (n == victim && len(l) > 0) {
 				cs.Fail("%s: VGetIncoming(%s,%s)=%v still involves deleted node %s", where, n, rel, l, victim)
 			}
+			if n == c12Ghost {
+				continue
+			}
+			// clause "connection hydration never returns it"
 			conns, err := x.E.VGetConnections(ix, n, rel)
 			if err != nil {
 				cs.Fail("%s: VGetConnections(%s,%s): %v", where, n, rel, err)
@@ -63,15 +97,38 @@ func c12Absent(cs *vkit.Case, x *vexec.Exec, ix, victim, where string) {
 			}
 		}
 		if n == victim {
+			// clause "no ... subgraph runs through it": the neighbourhood of the dead node is empty
+			if sg, err := x.E.VExtractSubgraph(ix, n, c12Rels, 4, 0, nil, 0); err == nil && sg != nil {
+				if len(sg.Edges) > 0 {
+					cs.Fail("%s: VExtractSubgraph(root=%s, the deleted node) has edges %v", where, n, sg.Edges)
+				}
+				for _, sn := range sg.Nodes {
+					if sn.ID != victim {
+						cs.Fail("%s: VExtractSubgraph(root=%s, the deleted node) reaches %s", where, n, sn.ID)
+					}
+				}
+			}
 			continue
 		}
-		for _, m := range c12Nodes {
-			if m == victim || m == n {
+		// clause "no path ... runs through it": neither as an inner node nor as an end point
+		// (a path of length >= 1 to / from the node needs a live edge to / from it)
+		for _, m := range nodes {
+			if m == n {
 				continue
 			}
-			if p, err := x.E.FindPath(ix, n, m, c12Rels, 5, 0); err == nil && p != nil && contains(p.Path, victim) {
+			p, err := x.E.FindPath(ix, n, m, c12Rels, 5, 0)
+			if err != nil || p == nil {
+				continue
+			}
+			if m == victim {
+				cs.Fail("%s: FindPath(%s,%s)=%v reaches the deleted node", where, n, m, p.Path)
+			}
+			if contains(p.Path, victim) {
 				cs.Fail("%s: FindPath(%s,%s)=%v runs through deleted node %s", where, n, m, p.Path, victim)
 			}
+		}
+		if p, err := x.E.FindPath(ix, victim, n, c12Rels, 5, 0); err == nil && p != nil {
+			cs.Fail("%s: FindPath(%s,%s)=%v starts at the deleted node", where, victim, n, p.Path)
 		}
 		if sg, err := x.E.VExtractSubgraph(ix, n, c12Rels, 4, 0, nil, 0); err == nil && sg != nil {
 			for _, sn := range sg.Nodes {
@@ -83,6 +140,31 @@ func c12Absent(cs *vkit.Case, x *vexec.Exec, ix, victim, where string) {
 				if e.Source == victim || e.Target == victim {
 					cs.Fail("%s: VExtractSubgraph(root=%s) has edge %v touching deleted node", where, n, e)
 				}
+			}
+		}
+		if n == c12Ghost {
+			continue
+		}
+		// the other neighbour-returning reads ("no current graph query returns the deleted node
+		// as a neighbour"): relation-path traversal (hydrating) and the graph-restricted search
+		if gn, err := x.E.VTraverse(ix, n, c12Paths); err == nil && gn != nil && c12WalkHas(gn.Connections, victim) {
+			cs.Fail("%s: VTraverse(%s) returns deleted node %s among the connections", where, n, victim)
+		}
+		if !readded {
+			gq := &engine.GraphQuery{RootID: n, Relations: c12Rels, Direction: "both", MaxDepth: 3}
+			if ids, err := x.E.VSearch(ix, []float32{1, 1}, 8, "", "", 0, 1.0, gq); err == nil && contains(ids, victim) {
+				cs.Fail("%s: VSearch restricted to the graph neighbourhood of %s returns deleted node %s", where, n, victim)
+			}
+		}
+	}
+	for _, hydrate := range []bool{false, true} {
+		res, err := x.E.VSearchGraph(ix, []float32{1, 1}, 8, "", "", 0, 1.0, c12Paths, hydrate, nil)
+		if err != nil {
+			continue
+		}
+		for _, r := range res {
+			if r.ID != victim && c12WalkHas(r.Node.Connections, victim) {
+				cs.Fail("%s: VSearchGraph(hydrate=%v) result %s lists deleted node %s among its connections", where, hydrate, r.ID, victim)
 			}
 		}
 	}
@@ -97,16 +179,17 @@ func contains(l []string, s string) bool {
 	return false
 }
 
-func c12Build(cs *vkit.Case, x *vexec.Exec, ix string) {
+// c12Build creates the index, the six vector nodes (in random order, so that the victim is
+// not always the first internal id) and the edges around the victim "v".
+func c12Build(cs *vkit.Case, x *vexec.Exec, ix string, shape int) {
 	r := cs.R
 	x.VCreate(vexec.IndexCfg{Name: ix, Metric: distance.Euclidean, Prec: distance.Float32, M: 4, EfC: 8})
-	for i, n := range c12Nodes {
-		x.VAdd(ix, n, []float32{float32(i), 1}, map[string]any{"name": n})
+	for _, i := range r.Perm(len(c12Nodes)) {
+		x.VAdd(ix, c12Nodes[i], []float32{float32(i), 1}, map[string]any{"name": c12Nodes[i]})
 	}
 	// the shape of the victim's neighbourhood: edges in both directions (incoming, outgoing,
 	// inverse, self), only outgoing, only incoming, only a self loop, or whatever the random
 	// edges give
-	shape := (cs.Idx / 6) % 5
 	pool := c12Nodes
 	switch shape {
 	case 0:
@@ -121,6 +204,10 @@ func c12Build(cs *vkit.Case, x *vexec.Exec, ix string) {
 		}
 		if r.Chance(0.7) {
 			x.VLink(ix, "v", "v", "s", "", 1, nil)
+		}
+		if r.Chance(0.3) { // a neighbour that exists in the graph only
+			x.VLink(ix, c12Ghost, "v", "r", "", 1, nil)
+			x.VLink(ix, "v", c12Ghost, "s", "", 1, nil)
 		}
 	case 1:
 		pool = c12Nodes[1:]
@@ -151,30 +238,346 @@ func c12Build(cs *vkit.Case, x *vexec.Exec, ix string) {
 			x.VUnlink(ix, src, tgt, vkit.Pick(r, []string{"r", "s"}), inv, r.Chance(0.3))
 		}
 	}
+	if r.Chance(0.2) {
+		// a second index with the same ids: its edges are "edges among other nodes"
+		h := ix + "2"
+		x.VCreate(vexec.IndexCfg{Name: h, Metric: distance.Euclidean, Prec: distance.Float32, M: 4, EfC: 8})
+		x.VAdd(h, "v", []float32{0, 1}, nil)
+		x.VAdd(h, "a", []float32{1, 1}, nil)
+		x.VLink(h, "a", "v", "r", "ri", 1, nil)
+		x.VLink(h, "v", "v", "s", "", 1, nil)
+	}
 	if r.Chance(0.3) {
 		x.SaveSnapshot()
 	}
 }
 
+type c12Edge struct{ src, tgt, rel string } // node ids (not graph ids)
+
+// c12Incident lists the model's active edges into or out of node `id`.
+func c12Incident(x *vexec.Exec, ix, id string) []c12Edge {
+	g := vexec.GraphID(ix, id)
+	var out []c12Edge
+	for _, k := range sortedEdgeKeys(x.M) {
+		for _, v := range x.M.Edges[k] {
+			if v.Deleted == 0 && v.DHi == 0 && (k.Src == g || v.Target == g) && strings.HasPrefix(k.Src, ix+"::") {
+				out = append(out, c12Edge{vexec.NodeOf(k.Src), vexec.NodeOf(v.Target), k.Rel})
+			}
+		}
+	}
+	return out
+}
+
+func sortedEdgeKeys(m *vexec.Model) []vexec.EdgeKey {
+	keys := make([]vexec.EdgeKey, 0, len(m.Edges))
+	for k := range m.Edges {
+		keys = append(keys, k)
+	}
+	for i := 1; i < len(keys); i++ { // insertion sort: a handful of keys
+		for j := i; j > 0 && (keys[j].Src < keys[j-1].Src || (keys[j].Src == keys[j-1].Src && keys[j].Rel < keys[j-1].Rel)); j-- {
+			keys[j], keys[j-1] = keys[j-1], keys[j]
+		}
+	}
+	return keys
+}
+
+// c12Gate parks the cascade goroutine at hook point `point` once it has passed it `skip`
+// times. wait() blocks until it is parked or some cascade finished without reaching the
+// gate; release() lets it go on.
+type c12Gate struct {
+	gate  chan struct{}
+	held  atomic.Int32
+	steps atomic.Int32
+	base  int64
+	once  sync.Once
+}
+
+func c12Hold(point string, skip int32) *c12Gate {
+	g := &c12Gate{gate: make(chan struct{}), base: verifhook.Hits()["cascade.done"]}
+	verifhook.Set(point, func(string, any) {
+		if g.steps.Add(1) <= skip {
+			return
+		}
+		if g.held.CompareAndSwap(0, 1) {
+			<-g.gate
+		}
+	})
+	return g
+}
+
+func (g *c12Gate) wait(cs *vkit.Case, point string) bool {
+	for i := 0; g.held.Load() == 0; i++ {
+		if i%32 == 0 && verifhook.Hits()["cascade.done"] != g.base {
+			break
+		}
+		if i > 4000000 {
+			cs.Fail("cascade goroutine neither reached %s nor finished", point)
+		}
+		runtime.Gosched()
+		time.Sleep(5 * time.Microsecond)
+	}
+	return g.held.Load() == 1
+}
+
+func (g *c12Gate) release() { g.once.Do(func() { close(g.gate) }) }
+
+// c12AwaitCascades waits until n cascade goroutines have finished since `base`.
+func c12AwaitCascades(ctx *vkit.Ctx, cs *vkit.Case, base int64, n int64) {
+	for i := 0; verifhook.Hits()["cascade.done"]-base < n; i++ {
+		if i > 4000000 {
+			cs.Attach("goroutines", strings.Split(vkit.DumpGoroutines(), "\n"))
+			cs.Fail("delete cascade did not finish (%d of %d)", verifhook.Hits()["cascade.done"]-base, n)
+		}
+		if i%1000 == 0 {
+			ctx.Touch()
+		}
+		time.Sleep(20 * time.Microsecond)
+	}
+}
+
+// c12InFlight issues operations while the cascade of "v" is parked ("deletion interleaved with
+// further link operations"). Every write has an exact model: link / unlink among nodes other
+// than the victim; a user's own unlink of an edge of the victim that the cascade has not
+// reached yet (only when the cascade is parked at its start); a second VDelete of a neighbour
+// (overlapping cascades). Reads: connection hydration of every source, which finds the dangling
+// links and starts the lazy self-repair. It returns the second victim ("" if none) and the
+// lower end of its bracket.
+func c12InFlight(ctx *vkit.Ctx, cs *vkit.Case, x *vexec.Exec, ix string, atStart bool) (string, int64) {
+	r := cs.R
+	others := c12Nodes[1:]
+	for i := r.Intn(3); i > 0; i-- {
+		src, tgt := vkit.Pick(r, others), vkit.Pick(r, others)
+		inv := ""
+		if r.Chance(0.3) {
+			inv = "ri"
+		}
+		if r.Chance(0.7) {
+			x.VLink(ix, src, tgt, vkit.Pick(r, []string{"r", "s"}), inv, float32(r.Intn(3)), nil)
+		} else {
+			x.VUnlink(ix, src, tgt, vkit.Pick(r, []string{"r", "s"}), inv, r.Chance(0.3))
+		}
+		ctx.Count("inflight.link_ops", 1)
+	}
+	if inc := c12Incident(x, ix, "v"); atStart && len(inc) > 0 && r.Chance(0.4) {
+		// nothing is unlinked yet: the user's stamp is the one that must stay
+		e := vkit.Pick(r, inc)
+		x.VUnlink(ix, e.src, e.tgt, e.rel, "", r.Chance(0.25))
+		ctx.Count("inflight.user_unlink_of_victim_edge", 1)
+	}
+	if r.Chance(0.6) {
+		// Hydration while links to the dead node still stand: the dead-link branch of
+		// VGetConnections (lazy self-repair). No verdict here (the property speaks about the
+		// settled state); what the repair does to the graph is judged after the settle: only
+		// the dangling edge may go, softly, with a stamp inside the bracket.
+		var dangling []c12Edge
+		for _, e := range c12Incident(x, ix, "v") {
+			if e.tgt == "v" && e.src != "v" && e.src != c12Ghost {
+				dangling = append(dangling, e)
+			}
+		}
+		for _, n := range others {
+			for _, rel := range c12Rels {
+				x.E.VGetConnections(ix, n, rel)
+			}
+		}
+		ctx.Count("inflight.hydrations_with_dangling_link", int64(len(dangling)))
+		if len(dangling) > 0 && r.Chance(0.5) {
+			// let the self-repair get there first (otherwise it races with the cascade)
+			seen := 0
+			for _, e := range dangling {
+				for i := 0; i < 200000; i++ {
+					if l, _ := x.E.VGetLinks(ix, e.src, e.rel); !contains(l, "v") {
+						seen++
+						break
+					}
+					runtime.Gosched()
+				}
+			}
+			ctx.Count("inflight.selfrepair_observed", int64(seen))
+			ctx.Count("inflight.selfrepair_not_observed", int64(len(dangling)-seen))
+		}
+	}
+	if r.Chance(0.3) {
+		w := vkit.Pick(r, []string{"a", "b"})
+		lo := x.Now()
+		cs.Op("VDelete(%s,%s) while the cascade of v is parked", ix, w)
+		if err := x.E.VDelete(ix, w); err != nil {
+			cs.Fail("VDelete(%s,%s) failed: %v", ix, w, err)
+		}
+		ctx.Count("inflight.second_victim", 1)
+		return w, lo
+	}
+	return "", 0
+}
+
+// c12Repaired counts the cascade-unlinked versions that were stamped at or after t (i.e. by
+// recovery, not by the goroutine that was cut short). Evidence only.
+func c12Repaired(x *vexec.Exec, t int64) int64 {
+	var n int64
+	for _, vs := range x.M.Edges {
+		for _, v := range vs {
+			if v.Casc && v.Deleted >= t {
+				n++
+			}
+		}
+	}
+	return n
+}
+
+// c12AdminRaw runs a snapshot / compaction WITHOUT waiting for cascades (the Exec wrappers
+// settle first). It returns false when the operation had not completed after `patience`: an
+// implementation may make the admin operation wait for the cascade in flight; the caller then
+// releases the cascade and collects the result from the channel. (The patience only selects
+// which of two legal schedules is exercised, never a verdict.)
+func c12AdminRaw(cs *vkit.Case, x *vexec.Exec, admin string, patience time.Duration) (chan error, bool) {
+	cs.Op("%s while the cascade is in flight", admin)
+	done := make(chan error, 1)
+	e := x.E
+	go func() {
+		if admin == "snapshot" {
+			done <- e.SaveSnapshot()
+		} else {
+			done <- e.RewriteAOF()
+		}
+	}()
+	select {
+	case err := <-done:
+		done <- err
+		return done, true
+	case <-time.After(patience):
+		return done, false
+	}
+}
+
+// c12AdminInFlight: the fixed scenario of D-C12-1. A snapshot / compaction taken while the
+// delete cascade is in flight drops the VDEL record from the log; the process then stops
+// (orderly Close, or crash image) before the cascade has journaled its unlinks.
+func c12AdminInFlight(cs *vkit.Case, admin, stop string) string {
+	defer verifhook.Reset()
+	ix := "g"
+	x := vexec.NewExec(cs, cs.SubDir("data-"+admin+"-"+stop))
+	defer func() {
+		if x.E != nil {
+			x.E.Close()
+		}
+	}()
+	x.VCreate(vexec.IndexCfg{Name: ix, Metric: distance.Euclidean, Prec: distance.Float32, M: 4, EfC: 8})
+	for i, n := range []string{"a", "v", "b"} {
+		x.VAdd(ix, n, []float32{float32(i), 1}, nil)
+	}
+	x.VLink(ix, "a", "v", "r", "", 1, nil)
+	x.VLink(ix, "v", "b", "r", "", 1, nil)
+	x.VLink(ix, "a", "b", "s", "", 1, nil)
+	if msg := x.CheckFull(); msg != "" {
+		return "before delete: " + msg
+	}
+	base := verifhook.Hits()["cascade.done"]
+	g := c12Hold("cascade.start", 0)
+	defer g.release()
+	lo := x.Now()
+	cs.Op("VDelete(%s,v) with the cascade held at its start", ix)
+	if err := x.E.VDelete(ix, "v"); err != nil {
+		return "VDelete: " + err.Error()
+	}
+	if !g.wait(cs, "cascade.start") {
+		return "harness: cascade was not held"
+	}
+	done, finished := c12AdminRaw(cs, x, admin, 300*time.Millisecond)
+	if !finished {
+		g.release() // the admin operation waits for the cascade: let both complete
+	}
+	if err := <-done; err != nil {
+		return admin + ": " + err.Error()
+	}
+	y := x
+	if stop == "close" {
+		cl := make(chan error, 1)
+		go func() { cl <- x.CloseRaw() }()
+		time.Sleep(200 * time.Microsecond)
+		g.release()
+		if err := <-cl; err != nil {
+			return "Close: " + err.Error()
+		}
+		verifhook.Reset()
+		x.Reopen()
+	} else {
+		img := cs.SubDir("img-" + admin)
+		x.E.AOF.Flush()
+		if err := vexec.ImageDir(x.Dir, img); err != nil {
+			return "harness: image: " + err.Error()
+		}
+		g.release()
+		c12AwaitCascades(cs.C, cs, base, 1)
+		verifhook.Reset()
+		y = vexec.OpenOn(cs, img, x.M.Clone())
+		defer func() {
+			if y.E != nil {
+				y.E.Close()
+			}
+		}()
+	}
+	hi := y.Now()
+	y.M.DeleteWithCascade(ix, "v", lo, hi)
+	if l, _ := y.E.VGetLinks(ix, "a", "r"); contains(l, "v") {
+		return fmt.Sprintf("%s during the cascade, then %s, reopen: VGetLinks(a,r)=%v still names the deleted node v", admin, stop, l)
+	}
+	if msg := y.CheckFull(); msg != "" {
+		return fmt.Sprintf("%s during the cascade, then %s, reopen: %s", admin, stop, msg)
+	}
+	return ""
+}
+
 // C12 — deleting a node leaves no live edge to or from it.
 func TestVerifC12(t *testing.T) {
 	vkit.Run(t, "C12", func(ctx *vkit.Ctx) {
-		modes := []string{"settled", "close_at_start", "close_at_step", "crash_journaled", "crash_step", "crash_done_then_relink"}
-		ctx.Group("cascade", ctx.N(1500, 24000), func(cs *vkit.Case) {
+		ctx.Probe("D-C12-1", func(cs *vkit.Case) string {
+			var msgs []string
+			for _, admin := range []string{"snapshot", "rewrite"} {
+				for _, stop := range []string{"close", "crash"} {
+					if m := c12AdminInFlight(cs, admin, stop); m != "" {
+						msgs = append(msgs, m)
+					}
+				}
+			}
+			return strings.Join(msgs, " || ")
+		})
+		modes := []string{"settled", "close_at_start", "close_at_step", "crash_journaled", "crash_step", "crash_done_then_relink", "inflight_settle", "admin_in_flight"}
+		ctx.Group("cascade", ctx.N(1600, 25600), func(cs *vkit.Case) {
 			defer verifhook.Reset()
 			mode := modes[cs.Idx%len(modes)]
-			ix := "g"
+			shape := (cs.Idx / len(modes)) % 5
+			// the index name moves every graph id to other shards of the graph store
+			ix := "g" + string(rune('a'+cs.R.Intn(8)))
 			x := vexec.NewExec(cs, cs.SubDir("data"))
 			defer func() {
 				if x.E != nil {
 					x.E.Close()
 				}
 			}()
-			c12Build(cs, x, ix)
+			c12Build(cs, x, ix, shape)
 			if msg := x.CheckFull(); msg != "" {
 				cs.Fail("before delete: %s", msg)
 			}
-			cs.Op("mode %s", mode)
+			nInc := len(c12Incident(x, ix, "v"))
+			cs.Op("mode %s (%d edges at the victim)", mode, nInc)
+			// an admin operation between recovery and the next restart (the log is rebuilt from
+			// the repaired state)
+			adminAfter := func(y *vexec.Exec) {
+				switch cs.R.Intn(4) {
+				case 0:
+					y.RewriteAOF()
+				case 1:
+					y.SaveSnapshot()
+				}
+			}
+			// anyStep: a pass count anywhere in the cascade (incoming steps, the boundary to the
+			// outgoing ones, the last step)
+			anyStep := func() int32 {
+				if nInc <= 1 {
+					return 0
+				}
+				return int32(cs.R.Intn(nInc))
+			}
 			switch mode {
 			case "settled":
 				x.VDelete(ix, "v")
@@ -184,69 +587,202 @@ func TestVerifC12(t *testing.T) {
 				c12Absent(cs, x, ix, "v", "after settled cascade")
 				// deletion interleaved with further links among other nodes
 				x.VLink(ix, "a", "c", "r", "", 1, nil)
-				if cs.R.Chance(0.5) {
+				switch cs.R.Intn(4) {
+				case 0:
 					x.RewriteAOF() // the compacted log carries no VDEL record: nothing repairs what it gets wrong
+				case 1:
+					x.SaveSnapshot() // nor does the truncated one
+				case 2:
+					mc := hnsw.DefaultMaintenanceConfig()
+					mc.GraphRetention = 1
+					x.VUpdateIndexConfig(ix, mc)
+					x.GraphVacuumNow() // prunes the unlinked versions (and the edge-less node) before the old records are replayed
 				}
 				c01Restart(ctx, cs, x, "restart after cascade")
 				c12Absent(cs, x, ix, "v", "after restart")
 				// explicit re-link of the dead id is allowed and must survive
 				x.VLink(ix, "d", "v", "r", "", 2, nil)
 				c01Restart(ctx, cs, x, "restart after explicit re-link")
+				// LAST step of the case (it starts a self-repair that removes the re-link):
+				// "connection hydration never returns it", also when the id is linked again
+				conns, err := x.E.VGetConnections(ix, "d", "r")
+				if err != nil {
+					cs.Fail("VGetConnections(d,r) with a link to the deleted id: %v", err)
+				}
+				for _, c := range conns {
+					if c.ID == "v" {
+						cs.Fail("VGetConnections(d,r) hydrates the deleted node v (re-linked as a bare id): %v", c)
+					}
+				}
+				ctx.Count("hydration_over_relinked_dead_id", 1)
 
-			case "close_at_start", "close_at_step":
-				// hold the cascade goroutine, shut the engine down, reopen
-				gate := make(chan struct{})
-				var held atomic.Int32
+			case "close_at_start", "close_at_step", "inflight_settle":
+				// hold the cascade goroutine; optionally run operations meanwhile; then either
+				// shut the engine down and reopen, or let the cascade finish
 				point := "cascade.start"
 				skip := int32(0)
-				if mode == "close_at_step" {
+				if mode == "close_at_step" || (mode == "inflight_settle" && cs.R.Chance(0.5)) {
 					point = "cascade.step"
-					skip = int32(cs.R.Intn(3))
+					skip = anyStep()
 				}
-				var steps atomic.Int32
-				verifhook.Set(point, func(string, any) {
-					if steps.Add(1) <= skip {
-						return
-					}
-					if held.CompareAndSwap(0, 1) {
-						<-gate
-					}
-				})
+				base := verifhook.Hits()["cascade.done"]
+				g := c12Hold(point, skip)
+				defer g.release()
 				lo := x.Now()
 				cs.Op("VDelete(%s,v) with cascade held at %s (after %d passes)", ix, point, skip)
-				base := verifhook.Hits()["cascade.done"]
 				if err := x.E.VDelete(ix, "v"); err != nil {
 					cs.Fail("VDelete failed: %v", err)
 				}
-				// wait until the goroutine is parked (or finished without reaching the gate)
-				for i := 0; held.Load() == 0 && verifhook.Hits()["cascade.done"] == base; i++ {
-					if i > 4000000 {
-						cs.Fail("cascade goroutine neither reached %s nor finished", point)
+				held := g.wait(cs, point) // parked, or finished without reaching the gate
+				ctx.Count("held."+mode, int64(g.held.Load()))
+				w, loW := "", int64(0)
+				if held && (mode == "inflight_settle" || cs.R.Chance(0.5)) {
+					w, loW = c12InFlight(ctx, cs, x, ix, point == "cascade.start")
+				}
+				var loR int64
+				if mode == "inflight_settle" {
+					g.release()
+					n := int64(1)
+					if w != "" {
+						n = 2
 					}
-					runtime.Gosched()
-					time.Sleep(5 * time.Microsecond)
+					c12AwaitCascades(ctx, cs, base, n)
+					verifhook.Reset()
+					x.ForeignCascades(n) // started behind the executor's back
+					loR = 1 << 62
+				} else {
+					var wg sync.WaitGroup
+					wg.Add(1)
+					var cerr error
+					go func() { defer wg.Done(); cerr = x.CloseRaw() }()
+					time.Sleep(time.Duration(cs.R.Range(0, 300)) * time.Microsecond)
+					g.release() // Close waits for the goroutine; let it observe the cancelled context
+					wg.Wait()
+					verifhook.Reset()
+					if cerr != nil {
+						cs.Fail("Close during cascade returned error: %v", cerr)
+					}
+					loR = x.Now()
+					x.Reopen()
 				}
-				ctx.Count("held."+mode, int64(held.Load()))
-				var wg sync.WaitGroup
-				wg.Add(1)
-				var cerr error
-				go func() { defer wg.Done(); cerr = x.CloseRaw() }()
-				time.Sleep(time.Duration(cs.R.Range(0, 300)) * time.Microsecond)
-				close(gate) // Close waits for the goroutine; let it observe the cancelled context
-				wg.Wait()
-				verifhook.Reset()
-				if cerr != nil {
-					cs.Fail("Close during cascade returned error: %v", cerr)
-				}
-				x.Reopen()
 				hi := x.Now()
 				x.M.DeleteWithCascade(ix, "v", lo, hi)
-				if msg := x.CheckFull(); msg != "" {
-					cs.Fail("after shutdown during cascade + reopen: %s", msg)
+				if w != "" {
+					x.M.DeleteWithCascade(ix, w, loW, hi)
 				}
-				c12Absent(cs, x, ix, "v", "after shutdown during cascade + reopen")
+				where := "after shutdown during cascade + reopen"
+				if mode == "inflight_settle" {
+					where = "after operations during the cascade, settled"
+				}
+				if msg := x.CheckFull(); msg != "" {
+					cs.Fail("%s: %s", where, msg)
+				}
+				c12Absent(cs, x, ix, "v", where)
+				if w != "" {
+					c12Absent(cs, x, ix, w, where+" (second victim)")
+				}
+				if n := c12Repaired(x, loR); n > 0 {
+					ctx.Count("cut_short."+mode, 1)
+					ctx.Count("edges_repaired_by_recovery", n)
+				}
+				adminAfter(x)
 				c01Restart(ctx, cs, x, "second restart (repair must be stable)")
 				c12Absent(cs, x, ix, "v", "after second restart")
+				if w != "" {
+					c12Absent(cs, x, ix, w, "after second restart (second victim)")
+				}
+
+			case "admin_in_flight":
+				// A snapshot / compaction while the cascade is parked, then stop. While D-C12-1 is
+				// open the admin operation is issued after the cascade has finished instead
+				// (restart from a snapshot / compacted log taken after the delete).
+				known := ctx.IsKnown("D-C12-1")
+				admin := vkit.Pick(cs.R, []string{"snapshot", "rewrite"})
+				stop := vkit.Pick(cs.R, []string{"close", "crash"})
+				point := "cascade.start"
+				skip := int32(0)
+				if cs.R.Chance(0.5) {
+					point = "cascade.step"
+					skip = anyStep()
+				}
+				base := verifhook.Hits()["cascade.done"]
+				g := c12Hold(point, skip)
+				defer g.release()
+				lo := x.Now()
+				cs.Op("VDelete(%s,v) with cascade held at %s (after %d passes); then %s, then %s", ix, point, skip, admin, stop)
+				if err := x.E.VDelete(ix, "v"); err != nil {
+					cs.Fail("VDelete failed: %v", err)
+				}
+				held := g.wait(cs, point)
+				settled := false
+				settle := func() {
+					if !settled {
+						settled = true
+						g.release()
+						c12AwaitCascades(ctx, cs, base, 1)
+						x.ForeignCascades(1)
+					}
+				}
+				if known || !held {
+					settle()
+				}
+				done, finished := c12AdminRaw(cs, x, admin, 100*time.Millisecond)
+				if !finished {
+					ctx.Count("admin_waited_for_cascade", 1)
+					settle()
+				}
+				if err := <-done; err != nil {
+					cs.Fail("%s during the cascade: %v", admin, err)
+				}
+				if !settled {
+					ctx.Count("admin_completed_with_cascade_parked."+admin+"."+stop, 1)
+				}
+				y := x
+				var loR int64
+				if stop == "close" {
+					cl := make(chan error, 1)
+					go func() { cl <- x.CloseRaw() }()
+					time.Sleep(time.Duration(cs.R.Range(0, 300)) * time.Microsecond)
+					g.release()
+					if err := <-cl; err != nil {
+						cs.Fail("Close after %s during cascade returned error: %v", admin, err)
+					}
+					verifhook.Reset()
+					loR = x.Now()
+					x.Reopen()
+				} else {
+					img := cs.SubDir("img")
+					x.E.AOF.Flush()
+					if err := vexec.ImageDir(x.Dir, img); err != nil {
+						ctx.Inconclusive("crash image could not be taken: " + err.Error())
+						return
+					}
+					settle()
+					verifhook.Reset()
+					loR = x.Now()
+					y = vexec.OpenOn(cs, img, x.M.Clone())
+					defer func() {
+						if y.E != nil {
+							y.E.Close()
+						}
+					}()
+				}
+				hi := y.Now()
+				y.M.DeleteWithCascade(ix, "v", lo, hi)
+				where := fmt.Sprintf("%s during the cascade, %s, reopen", admin, stop)
+				if msg := y.CheckFull(); msg != "" {
+					cs.Fail("%s: %s", where, msg)
+				}
+				c12Absent(cs, y, ix, "v", where)
+				if n := c12Repaired(y, loR); n > 0 {
+					ctx.Count("cut_short."+mode, 1)
+					ctx.Count("edges_repaired_by_recovery", n)
+				}
+				c01Restart(ctx, cs, y, "restart after "+where)
+				c12Absent(cs, y, ix, "v", "second restart after "+where)
+				if y != x {
+					y.Close()
+				}
 
 			case "crash_journaled", "crash_step", "crash_done_then_relink":
 				point := map[string]string{"crash_journaled": "op.VDelete.journaled", "crash_step": "cascade.step", "crash_done_then_relink": "cascade.done"}[mode]
@@ -255,10 +791,11 @@ func TestVerifC12(t *testing.T) {
 				var took atomic.Int32
 				skip := int32(0)
 				if mode == "crash_step" {
-					skip = int32(cs.R.Intn(3))
+					skip = anyStep()
 				}
 				var passes atomic.Int32
 				imgDone := make(chan struct{})
+				var imgErr error
 				verifhook.Set(point, func(string, any) {
 					if passes.Add(1) <= skip {
 						return
@@ -266,9 +803,7 @@ func TestVerifC12(t *testing.T) {
 					if took.CompareAndSwap(0, 1) {
 						defer close(imgDone)
 						x.E.AOF.Flush()
-						if err := vexec.ImageDir(x.Dir, img); err != nil {
-							panic(err)
-						}
+						imgErr = vexec.ImageDir(x.Dir, img)
 					}
 				})
 				lo := x.Now()
@@ -290,7 +825,12 @@ func TestVerifC12(t *testing.T) {
 					ctx.Count("image_not_taken."+mode, 1)
 					break
 				}
+				if imgErr != nil {
+					ctx.Inconclusive("crash image could not be taken: " + imgErr.Error())
+					return
+				}
 				// evaluate the crash image against the history as of the crash
+				loR := x.Now()
 				y := vexec.OpenOn(cs, img, pre)
 				defer func() {
 					if y.E != nil {
@@ -302,6 +842,18 @@ func TestVerifC12(t *testing.T) {
 					ctx.Count("vdel_not_in_image", 1)
 					break
 				}
+				// a second crash right after recovery: its repairs may or may not have left the
+				// journal buffer (no flush here); the VDEL record is still in the log either way
+				img2 := ""
+				var pre2 *vexec.Model
+				if cs.R.Chance(0.3) {
+					img2 = cs.SubDir("img2")
+					pre2 = pre.Clone()
+					if err := vexec.ImageDir(y.Dir, img2); err != nil {
+						ctx.Inconclusive("second crash image could not be taken: " + err.Error())
+						return
+					}
+				}
 				hi := y.Now()
 				y.M.DeleteWithCascade(ix, "v", lo, hi)
 				if msg := y.CheckFull(); msg != "" {
@@ -309,9 +861,15 @@ func TestVerifC12(t *testing.T) {
 				}
 				c12Absent(cs, y, ix, "v", "crash image at "+point)
 				ctx.Count("crash_images_checked", 1)
+				if n := c12Repaired(y, loR); n > 0 {
+					ctx.Count("cut_short."+mode, 1)
+					ctx.Count("edges_repaired_by_recovery", n)
+				}
 				if mode == "crash_done_then_relink" {
 					y.VLink(ix, "c", "v", "s", "", 1, nil)
 					y.VAdd(ix, "v", []float32{9, 9}, nil)
+				} else {
+					adminAfter(y)
 				}
 				c01Restart(ctx, cs, y, "restart of recovered image (fixed point)")
 				if mode != "crash_done_then_relink" {
@@ -319,10 +877,26 @@ func TestVerifC12(t *testing.T) {
 				}
 				y.Close()
 				os.RemoveAll(img)
+				if img2 != "" {
+					z := vexec.OpenOn(cs, img2, pre2)
+					defer func() {
+						if z.E != nil {
+							z.E.Close()
+						}
+					}()
+					z.M.DeleteWithCascade(ix, "v", lo, z.Now())
+					if msg := z.CheckFull(); msg != "" {
+						cs.Fail("second crash right after the recovery of the image at %s: %s", point, msg)
+					}
+					c12Absent(cs, z, ix, "v", "second crash right after recovery")
+					ctx.Count("second_crash_images_checked", 1)
+					z.Close()
+					os.RemoveAll(img2)
+				}
 			}
 			ctx.Eval(1)
 			ctx.Count("mode."+mode, 1)
-			ctx.Distinct(fmt.Sprintf("%s|shape%d|%s", mode, (cs.Idx/6)%5, x.KindKey()))
+			ctx.Distinct(fmt.Sprintf("%s|shape%d|%s", mode, shape, x.KindKey()))
 			ctx.Sample("case", 3, map[string]any{"mode": mode, "ops": cs.Ops()})
 		})
 	})
